@@ -12,6 +12,8 @@ pub const ABORT_MSG: &str = "SIM-ABORT: injected panic in user callback";
 pub const BUDGET_MSG: &str = "SIM-BUDGET: work budget exceeded";
 
 thread_local! {
+    static REENTER_AT: Cell<u64> = const { Cell::new(0) };
+    static REENTER_FN: std::cell::RefCell<Option<Box<dyn FnOnce()>>> = const { std::cell::RefCell::new(None) };
     static CALLBACKS: Cell<u64> = const { Cell::new(0) };
     static SOURCE_EVENTS: Cell<u64> = const { Cell::new(0) };
     static ABORT_AT: Cell<u64> = const { Cell::new(0) };
@@ -71,6 +73,19 @@ pub fn restore(s: Saved) {
     TICK_BUDGET.with(|c| c.set(s.7));
 }
 
+/// Arrange for `f` to run inside the `at`-th user callback of the next operation on this thread.
+/// The caller must call `clear_reenter` before anything `f` borrows goes away.
+pub fn set_reenter(at: u64, f: Box<dyn FnOnce()>) {
+    REENTER_FN.with(|r| *r.borrow_mut() = Some(f));
+    REENTER_AT.with(|c| c.set(at));
+}
+
+/// Returns true if the re-entrant operation did not run (the callback count was never reached).
+pub fn clear_reenter() -> bool {
+    REENTER_AT.with(|c| c.set(0));
+    REENTER_FN.with(|r| r.borrow_mut().take()).is_some()
+}
+
 pub fn set_yield(on: bool) {
     YIELD.with(|c| c.set(on));
 }
@@ -88,6 +103,15 @@ pub fn cb() {
     if n == ABORT_AT.with(|c| c.get()) {
         ABORT_FIRED.with(|c| c.set(true));
         panic!("{}", ABORT_MSG);
+    }
+    if n == REENTER_AT.with(|c| c.get()) {
+        // a second operation starts while this one is in flight (re-entrant use from a callback)
+        if let Some(f) = REENTER_FN.with(|r| r.borrow_mut().take()) {
+            REENTER_AT.with(|c| c.set(0));
+            let saved = save();
+            f();
+            restore(saved);
+        }
     }
     if YIELD.with(|c| c.get()) {
         crate::thrsim::sched_point();
